@@ -8,4 +8,8 @@ go build -o .bin/rewrite ./cmd/rewrite
 .bin/rewrite -maporder app,keyper/shutterevents -vos app/app.go -out .gen/overlay-appcheck
 go build -tags verif -overlay .gen/overlay-appcheck/overlay.json -o .bin/appcheck ./cmd/appcheck
 go build -tags verif -o .bin/kprcheck ./cmd/kprcheck
+go build -tags verif -o .bin/netcheck ./cmd/netcheck
+go build -tags verif -o .bin/evcheck ./cmd/evcheck
+.bin/rewrite -maporder keyper/kproapi -vos "" -out .gen/overlay-apicheck
+go build -tags verif -overlay .gen/overlay-apicheck/overlay.json -o .bin/apicheck ./cmd/apicheck
 echo setup ok
